@@ -18,6 +18,6 @@ def parserOf (k : InKind) (cap : Nat) (keep : Bool) (text : Str) : Option PState
 
 /-- plain iteration over the events of `text` -/
 def events (k : InKind) (cap : Nat) (keep : Bool) (text : Str) : Option (List Ev × Option (Res Unit)) :=
-  (parserOf k cap keep text).map fun p => iterate (4 * p.toks.length + 64) (Api.init p) []
+  (parserOf k cap keep text).map fun p => iterate (16 * p.toks.length + 3) (Api.init p) []
 
 end SaphyrModel.Pipeline
